@@ -29,7 +29,8 @@ PARSE = 'xdoctest.parser.DoctestParser.parse'
 
 
 def run(ctx):
-    for fn in (r1_one_namespace, r2_one_exec_per_part, r3_capture, r4_coroutine_driven, r5_tab_expansion, r6_contiguous_slices):
+    for fn in (r1_one_namespace, r1b_populated_once, r2_one_exec_per_part, r3_capture, r4_coroutine_driven, r5_tab_expansion,
+               r6_contiguous_slices, r7_decorated_statement_starts):
         ctx.rep.rule(fn, ctx)
 
 
@@ -391,6 +392,108 @@ def r5_tab_expansion(ctx, rule='C01.R5'):
 
 
 # ---------------------------------------------------------------------------
+def r1b_populated_once(ctx):
+    """the namespace is filled from the module dict at most once per run (a second update would copy every module
+    global back over what the doctest has bound since).  Product CFG x once-flags, counting populate events."""
+    from .c11 import once_flags
+    from collections import deque
+    rr = run_roles(ctx)
+    rep = ctx.rep
+    g = rr.g
+    flags = sorted(once_flags(rr))
+    populate = set(id(n) for (n, _) in rr.globals_sites)
+    need(populate, 'C01.R1b: no call of _test_globals in RUN')
+    init = (tuple(None for _ in flags), 0)
+    seen = {}
+    work = deque([(g.entry, init, None)])
+    bad = None
+    while work:
+        node, st, prev = work.popleft()
+        key = (id(node), st)
+        if key in seen:
+            continue
+        seen[key] = prev
+        vals, cnt = st
+        vals = list(vals)
+        if node.kind == 'stmt' and isinstance(node.ast, ast.Assign):
+            for t in node.ast.targets:
+                if isinstance(t, ast.Name) and t.id in flags and isinstance(node.ast.value, ast.Constant):
+                    vals[flags.index(t.id)] = bool(node.ast.value.value)
+        if id(node) in populate:
+            cnt += 1
+            if cnt >= 2:
+                bad = key
+                break
+        nst = (tuple(vals), cnt)
+        for (t, kind, tok) in node.succ:
+            if t is g.raise_exit:
+                continue
+            if t.kind == 'branch' and t.attrs['test'].kind == 'test':
+                e = t.attrs['test'].ast
+                pol = t.attrs['polarity']
+                neg = False
+                while isinstance(e, ast.UnaryOp) and isinstance(e.op, ast.Not):
+                    e = e.operand
+                    neg = not neg
+                if isinstance(e, ast.Name) and e.id in flags:
+                    v = vals[flags.index(e.id)]
+                    if v is not None and (v != neg) != pol:
+                        continue
+            work.append((t, nst, key))
+    wit = None
+    if bad is not None:
+        path = []
+        k = bad
+        byid = {id(n): n for n in g.nodes}
+        while k is not None:
+            path.append(byid[k[0]])
+            k = seen[k]
+        wit = graph.fmt_path(path[::-1], rr.f.module.relpath)
+    rep.ob('C01.R1b', ctx.loc(rr.f, rr.globals_sites[0][1]), '_test_globals() at most once per run', bad is None,
+           'on the CFG x once-flag product (%s) no path calls _test_globals twice: the module globals are copied into the namespace once, before the first executed part' % flags if bad is None else
+           'the namespace can be re-populated from the module dict during a run: names the doctest has rebound since are silently reset to the module globals', witness=wit, anchor=RUN)
+    # _test_globals is what copies the module dict
+    ftg = ctx.func(TG)
+    upd = [c for c in ast.walk(ftg.node) if isinstance(c, ast.Call) and isinstance(c.func, ast.Attribute) and c.func.attr == 'update' and any(isinstance(x, ast.Attribute) and x.attr == '__dict__' for x in ast.walk(c))]
+    rep.ob('C01.R1b', ctx.loc(ftg, upd[0] if upd else ftg.node), '_test_globals copies the module dict', bool(upd), 'populate event = call of _test_globals' if upd else 'module dict is not copied in _test_globals any more (populate sites unknown)', nontrivial=False, anchor=TG)
+
+
+def r7_decorated_statement_starts(ctx):
+    """a statement starts at its first decorator line for EVERY node kind that can carry decorators"""
+    rep = ctx.rep
+    q = 'xdoctest.parser.DoctestParser._locate_ps1_linenos'
+    f = ctx.func(q)
+    g = ctx.cfg(f)
+    dom = ctx.dom(g, g.entry)
+    KINDS = {'FunctionDef', 'AsyncFunctionDef', 'ClassDef'}
+    for k in KINDS:
+        need(hasattr(ast, k) and 'decorator_list' in getattr(ast, k)._fields, 'C01.R7: ast.%s has no decorator_list in this Python' % k)
+    sites = [n for n in g.nodes if n.kind == 'stmt' and not n.dup and isinstance(n.ast, ast.Assign) and 'decorator_list[0].lineno' in ast.unparse(n.ast.value)]
+    if not sites:
+        rep.ob('C01.R7', ctx.loc(f, f.node), 'decorated statements start at their first decorator', False,
+               'no statement start is taken from decorator_list[0]: the decorator lines of a definition are attached to the preceding statement', anchor=q)
+        return
+    for n in sites:
+        loopf = [fr for fr in n.frames if fr.kind == 'loop']
+        need(loopf, 'C01.R7: decorator adjustment is not inside the loop over statements')
+        entry, cut = graph.region_of_loop(g, loopf[-1].head)
+        d2 = ctx.dom(g, entry, cut)
+        kinds_ok = True
+        restr = []
+        for fa in graph.guard_facts(d2, n):
+            e = fa.expr
+            if isinstance(e, ast.Call) and is_name(e.func, 'isinstance') and fa.polarity is True and len(e.args) == 2:
+                names = {x.attr if isinstance(x, ast.Attribute) else x.id for x in ast.walk(e.args[1]) if isinstance(x, (ast.Attribute, ast.Name))} - {'ast'}
+                if not KINDS <= names:
+                    kinds_ok = False
+                    restr.append(sorted(KINDS - names))
+        rep.ob('C01.R7', ctx.loc(f, n.ast), ctx.src(n.ast), kinds_ok,
+               'the adjustment applies to every node kind that has a decorator_list (kind-agnostic test, or all of FunctionDef / AsyncFunctionDef / ClassDef)' if kinds_ok else
+               'the decorator adjustment is restricted to some node kinds; missing: %s -- the decorators of such a definition become part of the preceding statement '
+               '(they run without the definition, and a directive in front of it changes scope)' % restr, anchor=q)
+
+
+# ---------------------------------------------------------------------------
 CHUNK = 'xdoctest.parser.DoctestParser._package_chunk'
 
 
@@ -585,6 +688,12 @@ VARIANTS = [
     fire('slicer-orig-lines-off-by-one', 'C01.R6', (PA, "            orig_lines = source_lines[s1:s2]\n", "            orig_lines = source_lines[s1 + 1:s2]\n")),
     fire('start-initialised-to-one', 'C01.R6', (PA, "        s1 = 0\n        s2 = 0\n        if self.simulate_repl:", "        s1 = 1\n        s2 = 0\n        if self.simulate_repl:")),
     silent('final-none-inlined', (PA, "        s2 = None\n\n        example = slice_example(s1, s2, want_lines)\n", "        example = slice_example(s1, None, want_lines)\n")),
+    fire('namespace-repopulated-for-later-parts', 'C01.R1b',
+         (DE, "                    did_pre_import = True\n\n                try:\n                    # Compile code, handle syntax errors", "                    did_pre_import = True\n                else:\n                    test_globals, compileflags = self._test_globals()\n\n                try:\n                    # Compile code, handle syntax errors")),
+    fire('decorated-classes-not-adjusted', 'C01.R7',
+         (PA, "                if hasattr(node, 'decorator_list') and node.decorator_list:\n", "                if isinstance(node, (ast.FunctionDef, ast.AsyncFunctionDef)) and node.decorator_list:\n")),
+    silent('decorator-test-by-isinstance-all-kinds',
+           (PA, "                if hasattr(node, 'decorator_list') and node.decorator_list:\n", "                if isinstance(node, (ast.FunctionDef, ast.AsyncFunctionDef, ast.ClassDef)) and node.decorator_list:\n")),
     silent('expandtabs-in-labeller',
            (PA, "        string = string.expandtabs()\n", ""),
            (PA, "    indents = [len(indent) for indent in INDENT_RE.findall(s)]", "    indents = [len(indent) for indent in INDENT_RE.findall(s.expandtabs())]"),
